@@ -2,6 +2,7 @@
 from rules import transport as T
 from rules import session as S
 from rules import robust as R
+from rules import timing as TM
 
 
 def run(ctx):
@@ -9,6 +10,8 @@ def run(ctx):
     ctx.rule("R-SNAPSHOT", "job-thread scans iterate a snapshot of the keys", floor=5)
     ctx.rule("R-ORDER-SEND", "send state is advanced before RTS / connection-mode DT is put on the bus (both layers)", floor=4)
     ctx.rule("R-ROLE-WRITERS", "which role structurally modifies which session table (insert/delete)", floor=4)
+    ctx.rule("R-REFUSE", "a new transfer is refused while the pair's previous session entry still exists (any state)", floor=5)
+    ctx.rule("R-POOL-PAIR", "FD: the session number goes back to the pool only after the session entry is deleted", floor=10)
     for fd in (False, True):
         L = T.Layer(ctx, fd=fd)
         dele = R.job_subscript(ctx, L)
@@ -22,5 +25,10 @@ def run(ctx):
                              "send sessions are deleted by %s: the job thread's burst loop keeps sending from / re-arming a session that "
                              "no longer exists, and its own del raises KeyError" % f.name, n)
         S.order_send(ctx, L)
+        # a pair / session number must stay occupied until the job thread has removed the old entry: otherwise a send_pgn that
+        # runs between the two steps creates a session under the key the job thread then deletes
+        T.refuse(ctx, L)
+        if fd:
+            TM.pool_pair(ctx, L)
     ctx.assume("CPython: dict get/pop/in on a key are atomic with respect to the other thread; a thread switch can occur between any two bytecodes")
     return "raise-on-interleave and ordering clauses of C08 decided on both data link layers"
